@@ -62,12 +62,15 @@ ITEMS = [
          canaries=['C17:bytes_are_terminal_safe_same_length_rest_untouched']),
     # ---- ring reader window trimmed to UTF-8 boundaries (C17: reader snippets) ----
     dict(src='src/ring_reader.rs', path='fn is_utf8_continuation', props=['C17', 'C01'],
+         bounded=dict(harness='bounded/utf8_trim.rs', items=[('src/ring_reader.rs', 'fn is_utf8_continuation'), ('src/ring_reader.rs', 'fn utf8_expected_len'), ('src/ring_reader.rs', 'fn trim_to_utf8_boundaries_with_line'), ('src/ring_reader.rs', 'fn trim_incomplete_utf8_tail')]),
          proofs=[dict(at='start', text='lemma_cont_bits(b);')],
          ensures=[('continuation_bytes_are_10xxxxxx', 'r == is_cont(b)')], canaries=['continuation_bytes_are_10xxxxxx']),
     dict(src='src/ring_reader.rs', path='fn utf8_expected_len', props=['C17', 'C01'],
+         bounded=dict(harness='bounded/utf8_trim.rs', items=[('src/ring_reader.rs', 'fn is_utf8_continuation'), ('src/ring_reader.rs', 'fn utf8_expected_len'), ('src/ring_reader.rs', 'fn trim_to_utf8_boundaries_with_line'), ('src/ring_reader.rs', 'fn trim_incomplete_utf8_tail')]),
          rewrites=[(r'\(0x([0-9A-F]{2})\.\.=0x([0-9A-F]{2})\)\.contains\(&lead\)', r'(0x\1 <= lead && lead <= 0x\2)', 3, 'R24')],
          ensures=[('lead_byte_table', 'r == (match expected_len(lead) { Some(n) => Some(n as usize), None => None::<usize> })')], canaries=['lead_byte_table']),
     dict(src='src/ring_reader.rs', path='fn trim_incomplete_utf8_tail', props=['C17', 'C01'],
+         bounded=dict(harness='bounded/utf8_trim.rs', items=[('src/ring_reader.rs', 'fn is_utf8_continuation'), ('src/ring_reader.rs', 'fn utf8_expected_len'), ('src/ring_reader.rs', 'fn trim_to_utf8_boundaries_with_line'), ('src/ring_reader.rs', 'fn trim_incomplete_utf8_tail')]),
          ensures=[('C17:only_an_incomplete_last_code_point_is_dropped', 'final(bytes)@.len() <= old(bytes)@.len() && final(bytes)@ == old(bytes)@.take(final(bytes)@.len() as int)'),
                   ('C17:the_window_no_longer_stops_inside_a_code_point', 'tail_settled(final(bytes)@)')],
          proofs=[dict(before='let expected = match utf8_expected_len(lead) {', text='assert(settled_at(bytes@, lead_idx as int) == (match expected_len(lead) { Some(n) => bytes@.len() - lead_idx >= n, None => true }));'),
@@ -81,6 +84,7 @@ ITEMS = [
                         decreases='i')},
          canaries=['C17:the_window_no_longer_stops_inside_a_code_point']),
     dict(src='src/ring_reader.rs', path='fn trim_to_utf8_boundaries_with_line', props=['C17', 'C01'],
+         bounded=dict(harness='bounded/utf8_trim.rs', items=[('src/ring_reader.rs', 'fn is_utf8_continuation'), ('src/ring_reader.rs', 'fn utf8_expected_len'), ('src/ring_reader.rs', 'fn trim_to_utf8_boundaries_with_line'), ('src/ring_reader.rs', 'fn trim_incomplete_utf8_tail')]),
          rewrites=[(r'bytes\.drain\(\.\.cut\);', 'vec_drain_prefix(&mut bytes, cut);', 1, 'R8')],
          proofs=[dict(at='start', ghost=True, text='let ghost b0 = bytes@; let ghost l0 = start_line;'),
                  dict(before='let mut cut = 0usize;', text='assert(b0.skip(0) =~= b0);'),
